@@ -19,6 +19,11 @@ import (
 )
 
 func (server *Server) Auth(conn *Conn, username string, password string) (*Message, error) {
+	if len(password) == 0 {
+		// The authenticators treat an empty password as "no password given"
+		// and skip the comparison, so it must never reach them from AUTH.
+		return nil, errors.New("invalid username or password")
+	}
 	conn.SetUserName(username)
 	conn.SetPassword(password)
 	ok, err := server.Authenticate(conn)
